@@ -1,11 +1,6 @@
 import Driver.Util
-<<<<<<< HEAD
-open Lean Replicat
-namespace Driver.HStore
-=======
 open Lean Replicat Replicat.Store Replicat.Paging
-namespace Driver
-
+namespace Driver.HStore
 def jstr (s : List Char) : Json := Json.str (String.ofList s)
 
 def getName (j : Json) (k : String) : Except String Replicat.Name := do
@@ -66,7 +61,6 @@ def optName (j : Json) : Except String (Option Replicat.Name) :=
   | Json.str s => pure (some s.toList)
   | _ => throw "expected string or null"
 
->>>>>>> c13
 /-- requests `store.*` (see DESIGN.md Appendix A) -/
 def handleStore (op : String) (j : Json) : Except String Json := do
   match op with
